@@ -64,8 +64,18 @@ def execStops (U : Units) (s : CState) (u : Nat) (ok : Bool) : CState × Bool :=
     let s2 := if root then { s1 with unplanned := add s1.unplanned u, planned := rem s1.planned u } else s1
     (s2, false)
 
-/-- `solutionPlanStopsUnitImpl.UnPlan` on stops-unit `u`; `ok` = un-planning was feasible. -/
+/-- `solutionPlanStopsUnitImpl.UnPlan` on stops-unit `u`; `ok` = un-planning was feasible. A member of a unit that is
+fixed through ANOTHER member is refused as well (as repaired, E44: it used to be taken off, and the fixed root was then
+listed as unplanned too). -/
 def unplanStops (U : Units) (s : CState) (u : Nat) (ok : Bool) : CState × Bool :=
+  if !(isPlanned U s u) || isFixed U u || isFixed U ((parentOf U u).getD u) then (s, false) else
+  let tgt := (parentOf U u).getD u
+  let s1 := { s with planned := rem s.planned tgt, unplanned := add s.unplanned tgt }
+  if ok then ({ s1 with onRoute := rem s1.onRoute u }, true)
+  else ({ s1 with unplanned := rem s1.unplanned tgt, planned := add s1.planned tgt }, false)
+
+/-- as it was until E44 was repaired: only the member's own fixed stops were looked at -/
+def unplanStopsGiven (U : Units) (s : CState) (u : Nat) (ok : Bool) : CState × Bool :=
   if !(isPlanned U s u) || isFixed U u then (s, false) else
   let tgt := (parentOf U u).getD u
   let s1 := { s with planned := rem s.planned tgt, unplanned := add s.unplanned tgt }
